@@ -4,9 +4,11 @@ import (
 	"bytes"
 	"encoding/binary"
 	"fmt"
+	"os"
 	"reflect"
 	"runtime"
 	"runtime/metrics"
+	"runtime/pprof"
 	"strings"
 	"time"
 
@@ -19,10 +21,11 @@ func init() { Registry["C04"] = c04 }
 
 // allocation bound: C + K * len(input). The constants are generous multiples
 // of what the largest valid encodings need (a 60 KB Rread decodes with ~2.2
-// bytes allocated per input byte; small messages stay below 8 KiB), so valid
-// traffic can never alarm.
+// bytes allocated per input byte; small messages stay below 8 KiB, except
+// that a stat's 16-bit size prefix may cost one buffer of up to 64 KiB), so
+// valid traffic can never alarm.
 const (
-	c04C = 256 << 10
+	c04C = 128 << 10
 	c04K = 64
 )
 
@@ -78,6 +81,13 @@ func c04Seeds() (fcalls [][]byte, dirs [][]byte) {
 	return
 }
 
+var typeNames = func() (t [256]string) {
+	for i := range t {
+		t[i] = fmt.Sprintf("type%d", i)
+	}
+	return
+}()
+
 type allocMeter struct {
 	precise bool
 	s       []metrics.Sample
@@ -97,19 +107,31 @@ type c04Run struct {
 	c        *core.Ctx
 	meter    *allocMeter
 	n        int64
-	classes  map[string]int64
+	batch    bool // allocation is metered by the caller over a batch of inputs
+	recheck  bool // second pass over a suspicious batch: allocation only
+	classes  map[[3]string]int64
 	maxRatio float64
 }
 
 // try is the C04 oracle for one input.
 func (r *c04Run) try(t *c04Target, in []byte, origin string) {
+	r.tryL(t, in, func() string { return origin })
+}
+
+// tryL is try with the description of the input built only when needed.
+func (r *c04Run) tryL(t *c04Target, in []byte, originf func() string) {
 	r.n++
 	var v any
 	var err error
-	before := r.meter.read()
+	var before, used uint64
+	if !r.batch {
+		before = r.meter.read()
+	}
 	p := catch(func() { v, err = t.decode(in) })
-	used := r.meter.read() - before
-	if !r.meter.precise && used*2 > uint64(c04C+c04K*len(in)) && p == "" {
+	if !r.batch {
+		used = r.meter.read() - before
+	}
+	if !r.batch && !r.meter.precise && used*2 > uint64(c04C+c04K*len(in)) && p == "" {
 		// the coarse meter only screens: judge on a precise re-measurement
 		r.meter.precise = true
 		before = r.meter.read()
@@ -117,28 +139,39 @@ func (r *c04Run) try(t *c04Target, in []byte, origin string) {
 		used = r.meter.read() - before
 		r.meter.precise = false
 	}
-	rp := map[string]any{"target": t.name, "input_hex": fmt.Sprintf("%x", head(in, 256)), "input_len": len(in), "origin": origin}
 	kind := "short"
 	if len(in) > 0 {
-		kind = fmt.Sprintf("type%d", in[0])
 		if t.name == "Dir" {
 			kind = "dir"
+		} else {
+			kind = typeNames[in[0]]
 		}
 	}
+	var rp map[string]any
+	origin := ""
+	fail := func() {
+		origin = originf()
+		rp = map[string]any{"target": t.name, "input_hex": fmt.Sprintf("%x", head(in, 256)), "input_len": len(in), "origin": origin}
+	}
 	if p != "" {
+		fail()
 		r.c.Violation("C04:panic:"+t.name+":"+firstWords(p), fmt.Sprintf("decoding %d bytes (% x) as %s panicked: %s [%s]", len(in), head(in, 40), t.name, p, origin), rp)
-		r.classes[t.name+"/panic"]++
+		r.classes[[3]string{t.name, "panic", ""}]++
 		return
 	}
 	bound := uint64(c04C + c04K*len(in))
 	if used > bound {
+		fail()
 		r.c.Violation(fmt.Sprintf("C04:alloc:%s:%s", t.name, kind), fmt.Sprintf("decoding %d bytes (% x) as %s allocated %d bytes (bound %d = %d + %d*len) [%s]", len(in), head(in, 40), t.name, used, bound, c04C, c04K, origin), rp)
 	}
-	if err != nil {
-		r.classes[t.name+"/"+kind+"/reject"]++
+	if r.recheck {
 		return
 	}
-	r.classes[t.name+"/"+kind+"/accept"]++
+	if err != nil {
+		r.classes[[3]string{t.name, kind, "reject"}]++
+		return
+	}
+	r.classes[[3]string{t.name, kind, "accept"}]++
 	// stability: decode(encode(v)) == v
 	var again any
 	var enc []byte
@@ -153,10 +186,12 @@ func (r *c04Run) try(t *c04Target, in []byte, origin string) {
 			panic("decoding the re-encoding failed: " + e.Error())
 		}
 	}); p != "" {
+		fail()
 		r.c.Violation("C04:unstable:"+t.name+":"+kind, fmt.Sprintf("decoded (% x) as %s to %s but %s [%s]", head(in, 40), t.name, Brief(v), p, origin), rp)
 		return
 	}
 	if !c04Equal(v, again) {
+		fail()
 		r.c.Violation("C04:unstable:"+t.name+":"+kind, fmt.Sprintf("decoded (% x) to %s; re-encoding and decoding again gives %s [%s]", head(in, 40), Brief(v), Brief(again), origin), rp)
 	}
 }
@@ -205,12 +240,17 @@ func c04Replacements(seed []byte, fn func(b []byte, what string)) {
 func c04(c *core.Ctx) {
 	c.SetLevel("exploration")
 	c.Budget(70*time.Second, 12*time.Minute)
-	c.SetRule("for Codec.Unmarshal(*Fcall) and DecodeDir: every valid seed encoding (27 kinds, 2 Dirs) with the 16-bit and 32-bit word at EVERY offset replaced by each boundary value {0,1,0x7F,0xFF,0xFFFE,0xFFFF,w-1,w+1 | 0x7FFFFFFF,0xFFFFFFFF,0x10000,0xFFFFFF,w-1,w+1}, every truncation, extensions by 1-8 bytes, every type byte; thorough: pairs of replacements, all byte strings of length <= 3, and per type byte every body of length <= 8 over {0,1,0xFF}. Oracle: no panic; bytes allocated (runtime.MemStats.TotalAlloc delta, single-threaded) <= 256KiB + 64*len(input); decode success => decode(encode(v)) == v. distinct = (target, type byte, accept/reject) classes")
+	c.SetRule("for Codec.Unmarshal(*Fcall) and DecodeDir: every valid seed encoding (27 kinds, 2 Dirs) with the 16-bit and 32-bit word at EVERY offset replaced by each boundary value {0,1,0x7F,0xFF,0xFFFE,0xFFFF,w-1,w+1 | 0x7FFFFFFF,0xFFFFFFFF,0x10000,0xFFFFFF,w-1,w+1}, every truncation, extensions by 1-8 bytes, every type byte; every 16-bit word at every offset swept over all 65536 values (quick: on the Twalk/Rwalk seeds; on the other seeds over 0..1100, the powers of two +-3 and the top 70 values); thorough: pairs of replacements, all byte strings of length <= 3, and per type byte every body of length <= 8 over {0,1,0xFF}. Oracle: no panic; bytes allocated (runtime.MemStats.TotalAlloc delta, single-threaded) <= 128KiB + 64*len(input); decode success => decode(encode(v)) == v. distinct = (target, type byte, accept/reject) classes")
 	c.Assume("allocation is measured on this run's inputs with constants fixed in the check; it is not a proof over all byte strings", "single-threaded measurement: GOMAXPROCS is not changed but nothing else allocates while a decode runs")
+	if pf := os.Getenv("VERIF_PPROF"); pf != "" {
+		f, _ := os.Create(pf)
+		pprof.StartCPUProfile(f)
+		defer pprof.StopCPUProfile()
+	}
 	codec := p9p.NewCodec()
 	targets := c04Targets(codec)
 	fseeds, dseeds := c04Seeds()
-	r := &c04Run{c: c, meter: &allocMeter{precise: true, s: []metrics.Sample{{Name: "/gc/heap/allocs:bytes"}}}, classes: map[string]int64{}}
+	r := &c04Run{c: c, meter: &allocMeter{precise: true, s: []metrics.Sample{{Name: "/gc/heap/allocs:bytes"}}}, classes: map[[3]string]int64{}}
 	seedsOf := func(t *c04Target) [][]byte {
 		if t.name == "Dir" {
 			return dseeds
@@ -239,6 +279,69 @@ func c04(c *core.Ctx) {
 				}
 			}
 		}
+	}
+	// every 16-bit word at every offset takes ALL 65536 values (counts and
+	// lengths are 16-bit fields): quick on the kinds that carry lists, data
+	// or a stat; thorough on every seed
+	{
+		rechecked := 0
+		r.meter.precise = false
+		sweepKinds := map[int]bool{9: true, 10: true} // Twalk Rwalk: the list counts
+		sparse := map[int]bool{}
+		for _, n := range sweepLens(true) {
+			if n < 1<<16 {
+				sparse[n] = true
+			}
+		}
+		for ti := range targets {
+			t := &targets[ti]
+			for si, seed := range seedsOf(t) {
+				// quick: all 65536 values on the list-carrying seeds, the dense
+				// length set of C01 (0..1100, powers of two +-3, top of the
+				// range) on the others
+				full := !c.Quick() || (t.name == "Fcall" && sweepKinds[si])
+				for off := 0; off+2 <= len(seed) && !c.Expired(); off++ {
+					b := append([]byte(nil), seed...)
+					si, off := si, off
+					const batch = 64
+					for v0 := 0; v0 < 1<<16; v0 += batch {
+						// allocation is screened per batch of 64 inputs (coarse meter);
+						// a batch that allocates more than the constant C is
+						// measured again input by input (coarse screen, then precise)
+						r.batch = true
+						before := r.meter.read()
+						for v := v0; v < v0+batch; v++ {
+							v := v
+							if !full && !sparse[v] {
+								continue
+							}
+							binary.LittleEndian.PutUint16(b[off:], uint16(v))
+							r.tryL(t, b, func() string { return fmt.Sprintf("seed %d u16@%d=%#x (full 16-bit sweep)", si, off, v) })
+						}
+						r.batch = false
+						if r.meter.read()-before > c04C {
+							r.recheck = true // per input: coarse screen, precise measurement where that is suspicious
+							for v := v0; v < v0+batch; v++ {
+								v := v
+								if !full && !sparse[v] {
+									continue
+								}
+								binary.LittleEndian.PutUint16(b[off:], uint16(v))
+								r.tryL(t, b, func() string { return fmt.Sprintf("seed %d u16@%d=%#x (full 16-bit sweep)", si, off, v) })
+								r.n--
+							}
+							r.recheck = false
+							rechecked++
+						}
+					}
+				}
+			}
+		}
+		r.meter.precise = true
+		if c.Expired() {
+			c.NotExhaustive("time budget (16-bit sweep)")
+		}
+		c.Set("sweep_batches_remeasured_precisely", rechecked)
 	}
 	if !c.Quick() {
 		// per type byte: 3-byte header + every body of length <= 8 over {0,1,0xFF}
@@ -323,8 +426,8 @@ func c04(c *core.Ctx) {
 	}
 	c.Count(r.n, 0, 0, 0)
 	for k, v := range r.classes {
-		c.Outcome(k, v)
+		c.Outcome(strings.TrimSuffix(k[0]+"/"+k[1]+"/"+k[2], "/"), v)
 	}
-	c.Sample(map[string]any{"seed_hex": fmt.Sprintf("%x", fseeds[9]), "mutation": "u16@11=0xffff (nwname)", "bound": "256KiB + 64*len"})
+	c.Sample(map[string]any{"seed_hex": fmt.Sprintf("%x", fseeds[9]), "mutation": "u16@11=0xffff (nwname)", "bound": "128KiB + 64*len"})
 	c.Set("seeds", len(fseeds)+len(dseeds))
 }
